@@ -49,6 +49,7 @@ structure In (s : Bytes) (st : LState) (p : Nat) (so bo : Rune) (l : L) : Prop w
   bracket : l.bracket = 0
   so : l.stringOpen = so
   bo : l.backquoteOpen = bo
+  pend : l.pendErr = false
 
 /-- the token `s[0, p)` of type `t` has just been scanned -/
 structure Emitted (s : Bytes) (t : Tok) (p : Nat) (l : L) : Prop where
@@ -148,7 +149,7 @@ theorem raw_scan (s : Bytes) (so : Rune) : ∀ (n : Nat) (u : Bytes), u.length =
   induction n using Nat.strongRecOn with
   | _ n ih =>
     intro u hn hv p l hu hin
-    obtain ⟨h1, h2, h3, h4, h5, h6, h7, h8, h9, h10⟩ := hin
+    obtain ⟨h1, h2, h3, h4, h5, h6, h7, h8, h9, h10, h11⟩ := hin
     have hstep := step_raw_eq l h2
     rcases rw_cases l u (by rw [h1, h3]; exact hu) hv with ⟨rfl, hr, hw⟩ |
       ⟨c, r, rfl, hc, hr, hw, hvr⟩ | ⟨w, r, hw1, hw2, hw3, hw, hr, hr1, hr2, hr3, hb, _, hvr⟩
@@ -170,7 +171,7 @@ theorem raw_scan (s : Bytes) (so : Rune) : ∀ (n : Nat) (u : Bytes), u.length =
           simp [eof, Lex.runeError, hcn]
           intro h; romega
         obtain ⟨l', hl', hres⟩ := ih r.length (by simp at hn; omega) r rfl hvr (p + 1) (nx l)
-          (drop_succ_of_drop hu) ⟨h1, h2, by simp [h3, hw], h4, h5, h6, h7, h8, h9, h10⟩
+          (drop_succ_of_drop hu) ⟨h1, h2, by simp [h3, hw], h4, h5, h6, h7, h8, h9, h10, h11⟩
         refine ⟨l', Steps.step h5 (hs' ▸ hl'), ?_⟩
         simp only [findB, beq_iff_eq, hc96, if_false]
         cases hf : findB 96 r with
@@ -185,7 +186,7 @@ theorem raw_scan (s : Bytes) (so : Rune) : ∀ (n : Nat) (u : Bytes), u.length =
         simp [eof, Lex.runeError, hw]
         rw [if_neg (by romega), if_neg (by romega)]
       obtain ⟨l', hl', hres⟩ := ih (u.drop w).length (by simp; omega) (u.drop w) rfl hvr (p + w) (nx l)
-        (drop_add_of_drop hu w) ⟨h1, h2, by simp [h3, hw], h4, h5, h6, h7, h8, h9, h10⟩
+        (drop_add_of_drop hu w) ⟨h1, h2, by simp [h3, hw], h4, h5, h6, h7, h8, h9, h10, h11⟩
       refine ⟨l', Steps.step h5 (hs' ▸ hl'), ?_⟩
       rw [findB_skip 96 w u hw3 (fun b hb' h96 => by have := hb b hb'; rw [h96] at this; simp at this)]
       cases hf : findB 96 (u.drop w) with
@@ -316,7 +317,7 @@ theorem ml_scan (s : Bytes) (so bo : Rune) : ∀ (n : Nat) (u : Bytes), u.length
   induction n using Nat.strongRecOn with
   | _ n ih =>
     intro u hn hv p l hu hin
-    obtain ⟨h1, h2, h3, h4, h5, h6, h7, h8, h9, h10⟩ := hin
+    obtain ⟨h1, h2, h3, h4, h5, h6, h7, h8, h9, h10, h11⟩ := hin
     have hstep := step_ml_eq l h2
     have hul : l.input.drop l.pos = u := by rw [h1, h3]; exact hu
     obtain ⟨hq1, hq1t, hq1f⟩ := peekQ l u hul hv
@@ -348,7 +349,7 @@ theorem ml_scan (s : Bytes) (so bo : Rune) : ∀ (n : Nat) (u : Bytes), u.length
     cases hh : headQ u with
     | false =>
       obtain ⟨hw1, hw2, hb, hvd⟩ := hq1f hh hnil
-      refine adv (nx l) (wAt l) ?_ ⟨h1, h2, by simp [h3], h4, h5, h6, h7, h8, h9, h10⟩ hw1 hw2 hvd
+      refine adv (nx l) (wAt l) ?_ ⟨h1, h2, by simp [h3], h4, h5, h6, h7, h8, h9, h10, h11⟩ hw1 hw2 hvd
         (closeIdx_skip _ u hw2 hb)
       rw [hstep, hne, hq1, hh]; simp
     | true =>
@@ -358,7 +359,7 @@ theorem ml_scan (s : Bytes) (so bo : Rune) : ∀ (n : Nat) (u : Bytes), u.length
       obtain ⟨hq2, hq2t, hq2f⟩ := peekQ (nx l) r hul2 hvr
       cases hh2 : headQ r with
       | false =>
-        refine adv (nx l) 1 ?_ ⟨h1, h2, by simp [h3, hw], h4, h5, h6, h7, h8, h9, h10⟩ (by omega) (by simp)
+        refine adv (nx l) 1 ?_ ⟨h1, h2, by simp [h3, hw], h4, h5, h6, h7, h8, h9, h10, h11⟩ (by omega) (by simp)
           (by simpa using hvr) ?_
         · rw [hstep, hne, hq1, hh, hq2, hh2]; simp
         · have : tripleHead (c :: r) = false := by
@@ -374,7 +375,7 @@ theorem ml_scan (s : Bytes) (so bo : Rune) : ∀ (n : Nat) (u : Bytes), u.length
         obtain ⟨hq3, hq3t, hq3f⟩ := peekQ (nx (nx l)) r2 hul3 hvr2
         cases hh3 : headQ r2 with
         | false =>
-          refine adv (nx (nx l)) 2 ?_ ⟨h1, h2, by simp [h3, hw, hw2], h4, h5, h6, h7, h8, h9, h10⟩ (by omega)
+          refine adv (nx (nx l)) 2 ?_ ⟨h1, h2, by simp [h3, hw, hw2], h4, h5, h6, h7, h8, h9, h10, h11⟩ (by omega)
             (by simp) (by simpa using hvr2) ?_
           · rw [hstep, hne, hq1, hh, hq2, hh2, hq3, hh3]; simp
           · have t1 : tripleHead (c :: c2 :: r2) = false := by simp [tripleHead, hh3]
@@ -487,6 +488,7 @@ structure InD (s : Bytes) (n base max x : Nat) (p0 : Nat) (q : Rune) (l : L) : P
   bracket : l.bracket = 0
   so : l.stringOpen = q
   bo : l.backquoteOpen = 0
+  pend : l.pendErr = false
 
 theorem digits_scan (s : Bytes) (q : Rune) (base max : Nat) (hb : base ≤ 16) : ∀ (n x : Nat) (u : Bytes), Valid u →
     ∀ (p0 : Nat) (l : L), s.drop p0 = u → InD s n base max x p0 q l →
@@ -496,7 +498,7 @@ theorem digits_scan (s : Bytes) (q : Rune) (base max : Nat) (hb : base ≤ 16) :
   induction n with
   | zero =>
     intro x u hv p0 l hu hin
-    obtain ⟨h1, h2, h3, hwd, h4, h5, h6, h7, h8, h9, h10⟩ := hin
+    obtain ⟨h1, h2, h3, hwd, h4, h5, h6, h7, h8, h9, h10, h11⟩ := hin
     have hstep := step_escD0_eq l base max x _ h2
     refine ⟨Lex.step l, Steps.one h5, ?_⟩
     by_cases hbad : (decide (x > max) || (decide (0xD800 ≤ x) && decide (x < 0xE000))) = true
@@ -512,12 +514,12 @@ theorem digits_scan (s : Bytes) (q : Rune) (base max : Nat) (hb : base ≤ 16) :
       · have hw0 := runeAt_width_of_eof s p0 he
         rw [he]
         simp only [bne_self_eq_false, Bool.false_eq_true, if_false]
-        exact ⟨h1, rfl, by simp [h3, hw0], h4, h5, h6, h7, h8, h9, h10⟩
+        exact ⟨h1, rfl, by simp [h3, hw0], h4, h5, h6, h7, h8, h9, h10, h11⟩
       · rw [if_pos (by simpa using he)]
-        exact ⟨h1, rfl, by simp [h3, hwd], h4, h5, h6, h7, h8, h9, h10⟩
+        exact ⟨h1, rfl, by simp [h3, hwd], h4, h5, h6, h7, h8, h9, h10, h11⟩
   | succ n ih =>
     intro x u hv p0 l hu hin
-    obtain ⟨h1, h2, h3, hwd, h4, h5, h6, h7, h8, h9, h10⟩ := hin
+    obtain ⟨h1, h2, h3, hwd, h4, h5, h6, h7, h8, h9, h10, h11⟩ := hin
     have hstep := step_escDS_eq l n base max x _ h2
     have herr : digitVal (runeAt s p0).1 ≥ base → Errored (Lex.step l) := by
       intro h
@@ -544,7 +546,7 @@ theorem digits_scan (s : Bytes) (q : Rune) (base max : Nat) (hb : base ≤ 16) :
           have hwl : wAt l = (runeAt s (p0 + 1)).2 := by simp [wAt, h1, hpos]
           obtain ⟨l', hl', hres⟩ := ih (x * base + d) r hvr (p0 + 1)
             { nx l with state := .escDigits n base max (x * base + d) (rAt l) } (drop_succ_of_drop hu)
-            ⟨h1, by simp [hrl], by simp [hpos, hwl], by simp [hwl], h4, h5, h6, h7, h8, h9, h10⟩
+            ⟨h1, by simp [hrl], by simp [hpos, hwl], by simp [hwl], h4, h5, h6, h7, h8, h9, h10, h11⟩
           refine ⟨l', Steps.step h5 (hs' ▸ hl'), ?_⟩
           simp only [lexDigits, hx, hd, if_true]
           split
@@ -569,13 +571,14 @@ theorem digits_scan (s : Bytes) (q : Rune) (base max : Nat) (hb : base ≤ 16) :
       apply herr; rw [hr, digitVal_hi r hr1]; omega
 
 
-theorem step_str_eq (l : L) (hs : l.state = .str) : Lex.step l =
+theorem step_str_eq (l : L) (hs : l.state = .str) (hp : l.pendErr = false) : Lex.step l =
     if rAt l == 92 then { nx l with state := .escape }
-    else if rAt l == Lex.runeError then { errorf (nx l) "invalid UTF-8 rune" with item := none }
-    else if rAt l == eof || rAt l == 10 then { errorf (nx l) "unterminated quoted string" with state := .done }
-    else if rAt l == l.stringOpen then { emit (nx l) .STRING with state := .statements }
+    else if rAt l == Lex.runeError && wAt l == 1 then { nx l with pendErr := true }
+    else if rAt l == eof || rAt l == 10 then
+      { errorf (nx l) "unterminated quoted string" with state := .done, pendErr := false }
+    else if rAt l == l.stringOpen then { emit (nx l) .STRING with state := .statements, pendErr := false }
     else nx l := by
-  simp only [Lex.step, hs, next_eq']
+  simp only [Lex.step, hs, next_eq', hp, nx_width, Bool.false_eq_true, if_false]
 
 theorem step_escape_eq (l : L) (hs : l.state = .escape) : Lex.step l =
     if (rAt l == 97 || rAt l == 98 || rAt l == 102 || rAt l == 110 || rAt l == 114 || rAt l == 116 ||
@@ -643,8 +646,8 @@ theorem str_scan (s : Bytes) (qb : UInt8) (hq : qb = 34 ∨ qb = 39) : ∀ (n : 
   | _ n ih =>
     intro u hn hv f hf p l hu hin
     obtain ⟨f, rfl⟩ : ∃ f', f = f' + 1 := ⟨f - 1, by omega⟩
-    obtain ⟨h1, h2, h3, h4, h5, h6, h7, h8, h9, h10⟩ := hin
-    have hstep := step_str_eq l h2
+    obtain ⟨h1, h2, h3, h4, h5, h6, h7, h8, h9, h10, h11⟩ := hin
+    have hstep := step_str_eq l h2 h11
     have hqn : qb.toNat = 34 ∨ qb.toNat = 39 := by rcases hq with rfl | rfl <;> simp
     have hul : l.input.drop l.pos = u := by rw [h1, h3]; exact hu
     -- continuing the scan from a later position
@@ -684,6 +687,7 @@ theorem str_scan (s : Bytes) (qb : UInt8) (hq : qb = 34 ∨ qb = 39) : ∀ (n : 
         have e8 : l1.bracket = 0 := by subst hl1def; exact h8
         have e9 : l1.stringOpen = (qb.toNat : Int) := by subst hl1def; exact h9
         have e10 : l1.backquoteOpen = 0 := by subst hl1def; exact h10
+        have e11 : l1.pendErr = false := by subst hl1def; exact h11
         have hl1 : Steps l l1 := hs1 ▸ Steps.one h5
         have hstep1 := step_escape_eq l1 e3
         have hul1 : l1.input.drop l1.pos = r := by rw [e1, e2]; exact drop_succ_of_drop hu
@@ -730,7 +734,7 @@ theorem str_scan (s : Bytes) (qb : UInt8) (hq : qb = 34 ∨ qb = 39) : ∀ (n : 
             rw [if_pos hsimp] at hstep1
             refine cont (Lex.step l1) 2 r2 (hl1.trans (Steps.one e5)) ?_ hdrop2 hlen2 hvr2
             rw [hstep1]
-            exact ⟨e1, rfl, hpos2, e4, e5, e6, e7, e8, e9, e10⟩
+            exact ⟨e1, rfl, hpos2, e4, e5, e6, e7, e8, e9, e10, e11⟩
           rw [if_neg hsimp] at hstep1
           by_cases hoct : (decide (48 ≤ e) && decide (e ≤ 55)) = true
           · have hls : lexStr (f + 1) qb (92 :: e :: r2) =
@@ -740,7 +744,7 @@ theorem str_scan (s : Bytes) (qb : UInt8) (hq : qb = 34 ∨ qb = 39) : ∀ (n : 
             rw [if_pos hoct] at hstep1
             refine digs _ 3 8 255 (p + 1) 4 (e :: r2) (by omega) hstep1 ?_ (drop_succ_of_drop hu) hvr
               (by simp at hn ⊢; omega) (by omega)
-            refine ⟨e1, ?_, ?_, ?_, e4, e5, e6, e7, e8, e9, e10⟩
+            refine ⟨e1, ?_, ?_, ?_, e4, e5, e6, e7, e8, e9, e10, e11⟩
             · show LState.escDigits 3 8 255 0 (e.toNat : Int) = _
               rw [← hr1, hra]
             · show (nx l1).pos = _
@@ -751,7 +755,7 @@ theorem str_scan (s : Bytes) (qb : UInt8) (hq : qb = 34 ∨ qb = 39) : ∀ (n : 
           have hind2 : ∀ nd max, InD s nd 16 max 0 (p + 2) (qb.toNat : Int)
               { nx (nx l1) with state := .escDigits nd 16 max 0 (rAt (nx l1)) } := by
             intro nd max
-            refine ⟨e1, ?_, ?_, ?_, e4, e5, e6, e7, e8, e9, e10⟩
+            refine ⟨e1, ?_, ?_, ?_, e4, e5, e6, e7, e8, e9, e10, e11⟩
             · show LState.escDigits nd 16 max 0 (rAt (nx l1)) = _
               rw [hr2]
             · show (nx (nx l1)).pos = _
@@ -844,7 +848,7 @@ theorem str_scan (s : Bytes) (qb : UInt8) (hq : qb = 34 ∨ qb = 39) : ∀ (n : 
         rw [if_neg (by simp; romega)] at hstep
         rw [if_neg (by simp [hcq])]
         exact cont (Lex.step l) 1 r (Steps.one h5)
-          (by rw [hstep]; exact ⟨h1, h2, by simp [h3, hw], h4, h5, h6, h7, h8, h9, h10⟩)
+          (by rw [hstep]; exact ⟨h1, h2, by simp [h3, hw], h4, h5, h6, h7, h8, h9, h10, h11⟩)
           (drop_succ_of_drop hu) (by simp at hn; omega) hvr
     · have hne : u ≠ [] := by intro h; subst h; simp at hw3; omega
       obtain ⟨c, r', rfl⟩ := List.exists_cons_of_ne_nil hne
@@ -857,13 +861,9 @@ theorem str_scan (s : Bytes) (qb : UInt8) (hq : qb = 34 ∨ qb = 39) : ∀ (n : 
         rw [if_pos (by simp [UInt8.le_iff_toNat_le]; omega), ← hwd, hw]
       rw [hls]
       have hin1 : In s .str (p + w) (qb.toNat : Int) 0 (Lex.step l) := by
-        rw [hstep, hr, if_neg (by simp; romega)]
-        by_cases hfd : (r : Int) = 65533
-        · rw [if_pos (by simp [Lex.runeError, hfd])]
-          exact ⟨h1, h2, by simp [h3, hw], h4, rfl, h6, h7, h8, h9, h10⟩
-        · rw [if_neg (by simp [Lex.runeError, hfd]), if_neg (by simp [eof]; romega), h9,
-            if_neg (by simp; romega)]
-          exact ⟨h1, h2, by simp [h3, hw], h4, h5, h6, h7, h8, h9, h10⟩
+        rw [hstep, hr, if_neg (by simp; romega), if_neg (by simp [hw]; omega), if_neg (by simp [eof]; romega), h9,
+          if_neg (by simp; romega)]
+        exact ⟨h1, h2, by simp [h3, hw], h4, h5, h6, h7, h8, h9, h10, h11⟩
       exact cont (Lex.step l) w _ (Steps.one h5) hin1 (drop_add_of_drop hu w) (by simp at hn ⊢; omega) hvr
 
 
@@ -923,6 +923,7 @@ theorem first_item (s : Bytes) (hv : Valid s) (c0 : UInt8) (r0 : Bytes) (hs : s 
   have e8 : l0.bracket = 0 := by subst hl0; rfl
   have e9 : l0.stringOpen = 0 := by subst hl0; rfl
   have e10 : l0.backquoteOpen = 0 := by subst hl0; rfl
+  have e11 : l0.pendErr = false := by subst hl0; rfl
   have hc0 : c0.toNat = 34 ∨ c0.toNat = 39 ∨ c0.toNat = 96 := by
     rcases hq with rfl | rfl | rfl <;> simp
   have hpre : hasPrefixAt l0.input l0.pos 35 = false := by
@@ -941,7 +942,7 @@ theorem first_item (s : Bytes) (hv : Valid s) (c0 : UInt8) (r0 : Bytes) (hs : s 
     · subst h96
       have hstep := step_stmt_bq l0 e3 hpre (by rw [hr]; rfl)
       have hin : In s .rawString 1 0 96 (Lex.step l0) := by
-        rw [hstep]; exact ⟨e1, rfl, hp1, e4, e5, e6, e7, e8, e9, rfl⟩
+        rw [hstep]; exact ⟨e1, rfl, hp1, e4, e5, e6, e7, e8, e9, rfl, e11⟩
       obtain ⟨l', hl', hres⟩ := raw_scan s 0 r0.length r0 rfl hvr 1 _ hd1 hin
       refine ⟨l', hl', ?_⟩
       rw [hs]
@@ -976,7 +977,7 @@ theorem first_item (s : Bytes) (hv : Valid s) (c0 : UInt8) (r0 : Bytes) (hs : s 
         rw [hh1] at hstep
         simp only [Bool.false_eq_true, if_false] at hstep ⊢
         have hin : In s .str 1 (c0.toNat : Int) 0 (Lex.step l0) := by
-          rw [hstep]; exact ⟨e1, rfl, hp1, e4, e5, e6, e7, e8, rfl, e10⟩
+          rw [hstep]; exact ⟨e1, rfl, hp1, e4, e5, e6, e7, e8, rfl, e10, e11⟩
         obtain ⟨l', hl', hres⟩ := str_scan s c0 hq' r0.length r0 rfl hvr (r0.length + 1) (by omega) 1 _ hd1 hin
         refine ⟨l', hl', ?_⟩
         cases hf : lexStr (r0.length + 1) c0 r0 with
@@ -1011,7 +1012,7 @@ theorem first_item (s : Bytes) (hv : Valid s) (c0 : UInt8) (r0 : Bytes) (hs : s 
           have hp3 : (nx (nx (nx l0))).pos = 3 := by simp [e2, hw, hw1, hw2]
           have hd3 : s.drop 3 = r2 := by rw [hs]; rfl
           have hin : In s .multiline 3 0 0 (Lex.step l0) := by
-            rw [hstep]; exact ⟨e1, rfl, hp3, e4, e5, e6, e7, e8, e9, e10⟩
+            rw [hstep]; exact ⟨e1, rfl, hp3, e4, e5, e6, e7, e8, e9, e10, e11⟩
           obtain ⟨l', hl', hres⟩ := ml_scan s 0 0 r2.length r2 rfl hvr2 3 _ hd3 hin
           refine ⟨l', hl', ?_⟩
           simp only [List.drop_succ_cons, List.drop_zero]
